@@ -272,11 +272,30 @@ def cbool(b):
 
 
 def cstr(s):
+    parts = []          # literal segments and single control characters
+    cur = ''
     for ch in s:
         o = ord(ch)
-        if o > 126 or (o < 32 and ch not in '\n\t\r'):
-            raise ValueError('non-ASCII-printable character in string for Coq: %r' % ch)
-    return '"' + s.replace('"', '""') + '"%string'
+        if o > 126:
+            raise ValueError('non-ASCII character in string for Coq: %r' % ch)
+        if o < 32 and ch not in '\n\t':
+            parts.append(cur)
+            parts.append(o)
+            cur = ''
+        else:
+            cur += ch
+    parts.append(cur)
+    lit = lambda t: '"' + t.replace('"', '""') + '"%string'
+    if len(parts) == 1:
+        return lit(parts[0])
+    # control characters are written as String "ddd"%char (three-digit decimal code) between the literal segments
+    out = lit(parts[-1])
+    for x in reversed(parts[:-1]):
+        if isinstance(x, int):
+            out = '(String "%03d"%%char %s)' % (x, out)
+        elif x:
+            out = '(String.append %s %s)' % (lit(x), out)
+    return out
 
 
 def clist(items):
